@@ -495,6 +495,8 @@ pub struct Scenario {
     pub store_warmup: bool,
     pub ops: Ops,
     pub div_mask: u32,
+    /// divergence pattern of chain 1 when it differs from chain 0's
+    pub div_mask1: Option<u32>,
     pub chunk: u64,
     /// variables of every type x shape (false: scalar / vector numeric and bool only)
     pub rich: bool,
@@ -502,7 +504,7 @@ pub struct Scenario {
 
 impl Scenario {
     fn name(&self) -> String {
-        format!("{:?}/{:?}/a{}b{}rec{}/chains{}/warmup{}/{:?}/div{:b}/chunk{}/rich{}", self.backend, self.preset, self.a, self.b, self.recorded, self.chains, self.store_warmup, self.ops, self.div_mask, self.chunk, self.rich)
+        format!("{:?}/{:?}/a{}b{}rec{}/chains{}/warmup{}/{:?}/div{:b}/chunk{}/rich{}", self.backend, self.preset, self.a, self.b, self.recorded, self.chains, self.store_warmup, self.ops, self.div_mask, self.chunk, self.rich) + &self.div_mask1.map(|m| format!("/chain1div{m:b}")).unwrap_or_default()
     }
 }
 
@@ -528,7 +530,7 @@ fn run_scenario<S: Settings>(sc: &Scenario, settings: &S, p: &mut Partial) {
             }
         };
         let faults: Vec<(u64, FaultKind)> = (0..n)
-            .filter(|k| sc.div_mask >> k & 1 == 1)
+            .filter(|k| (if c == 1 { sc.div_mask1.unwrap_or(sc.div_mask) } else { sc.div_mask }) >> k & 1 == 1)
             .map(|k| (base.1[k] + 1, if k % 2 == 0 { FaultKind::Recoverable } else { FaultKind::HugeDrop }))
             .collect();
         let rows = if faults.is_empty() { base.0 } else {
@@ -981,7 +983,17 @@ pub fn run(tier: Tier, _replay: Option<String>) -> i32 {
                                                 continue;
                                             }
                                             let rich = true;
-                                            scs.push(Scenario { preset, backend, a, b, recorded, chains, store_warmup, ops, div_mask, chunk, rich });
+                                            scs.push(Scenario { preset, backend, a, b, recorded, chains, store_warmup, ops, div_mask, div_mask1: None, chunk, rich });
+                                            // two chains with different event histories (every pair of patterns)
+                                            if chains == 2 && preset == Preset::DiagNuts && ops == Ops::Plain && div_mask == 0 && chunk == 2 && recorded == n && n <= 3 && store_warmup && backend != Backend::ZarrSyncFs {
+                                                for m0 in 0..(1u32 << n) {
+                                                    for m1 in 0..(1u32 << n) {
+                                                        if m0 != m1 {
+                                                            scs.push(Scenario { preset, backend, a, b, recorded, chains, store_warmup, ops, div_mask: m0, div_mask1: Some(m1), chunk, rich });
+                                                        }
+                                                    }
+                                                }
+                                            }
                                         }
                                     }
                                 }
